@@ -24,6 +24,25 @@ def _group(f):
     return GROUPS.get(f, f)
 
 
+def _roles(ctx):
+    """actual builder field name -> role (the field names of the plan), found by type"""
+    bf = ctx.A.builder_fields()
+    return {v: k for k, v in bf.items()}, bf
+
+
+def _param_roles(ctx, body):
+    """parameter local -> role, by the parameter's type (constructor of the store)"""
+    pat = [("state", lambda t: t == "State"), ("reducers", lambda t: "Reducer<" in t and "Vec<" in t), ("name", lambda t: t == "std::string::String"),
+           ("capacity", lambda t: t == "usize"), ("policy", lambda t: t.endswith("BackpressurePolicy")), ("middlewares", lambda t: "Middleware<" in t and "Vec<" in t)]
+    out = {}
+    for l in range(1, body.arg_count + 1):
+        ty = body.local_ty(l)
+        hits = [r for r, pr in pat if pr(ty)]
+        if len(hits) == 1 and hits[0] not in out.values():
+            out[l] = hits[0]
+    return out
+
+
 def _classify(val):
     v = strip_wrap(val)
     if v == ("param", 2):
@@ -73,6 +92,8 @@ def _setter_effects(ctx, b):
                     a0 = strip_wrap(a)
                     if a0[0] == "field" and a0[1] == ("param", 1) and e.ck.split("::")[-1] not in ("len", "is_empty", "iter", "clone", "deref", "as_str"):
                         eff.setdefault(a0[2], "call:" + e.ck.split("::")[-1])
+        inv, _bf = _roles(ctx)
+        eff = {inv.get(f, f): k for f, k in eff.items()}
         res.append((p, eff, base))
     return res
 
@@ -82,7 +103,7 @@ def bu1_write_sets(ctx, rep):
     A = ctx.A
     ms = [b for b in A.methods_of("StoreBuilder") if b.j.get("vis") == "Public"]
     badt = A.adt_by_name("StoreBuilder")
-    fields = [f["name"] for f in A.fields(badt)]
+    fields = list(A.builder_fields().keys())
     n = 0
     seen = set()
     for b in ms:
@@ -124,6 +145,7 @@ def bu1_write_sets(ctx, rep):
 def _pred_values(ctx, p):
     """truth values of the four validation predicates decided on the path"""
     vals = {}
+    bf = ctx.A.builder_fields()
     calls = {e.result: e for e in p.calls()}
     for k, v in p.decisions:
         truth = v.lstrip("*") not in ("0", "false")
@@ -133,24 +155,24 @@ def _pred_values(ctx, p):
             kk = kk[2]
             neg = True
         t = truth != neg
-        if strip_wrap(kk) == ("field", ("param", 1), "without_reducer"):
+        if strip_wrap(kk) == ("field", ("param", 1), bf["without_reducer"]):
             vals["without_reducer"] = t
         elif kk[0] == "call" and kk in calls:
             e = calls[kk]
             a0 = strip_wrap(e.args[0]) if e.args else None
-            if e.ck.endswith("::is_empty") and a0 == ("field", ("param", 1), "reducers"):
+            if e.ck.endswith("::is_empty") and a0 == ("field", ("param", 1), bf["reducers"]):
                 vals["reducers_empty"] = t
-            elif e.ck.endswith("::is_empty") and a0 == ("field", ("param", 1), "name"):
+            elif e.ck.endswith("::is_empty") and a0 == ("field", ("param", 1), bf["name"]):
                 vals["name_empty"] = t
         elif kk[0] == "binop" and kk[1] == "Eq":
             a, b = strip_wrap(kk[2]), strip_wrap(kk[3])
-            if a == ("field", ("param", 1), "capacity") and b[0] == "const" and str(b[1]).startswith("0_"):
+            if a == ("field", ("param", 1), bf["capacity"]) and b[0] == "const" and str(b[1]).startswith("0_"):
                 vals["capacity_zero"] = t
             elif a[0] == "call" and a in calls and calls[a].ck.endswith("::len") and b[0] == "const" and str(b[1]).startswith("0_"):
                 a0 = strip_wrap(calls[a].args[0])
-                if a0 == ("field", ("param", 1), "reducers"):
+                if a0 == ("field", ("param", 1), bf["reducers"]):
                     vals["reducers_empty"] = t
-                if a0 == ("field", ("param", 1), "name"):
+                if a0 == ("field", ("param", 1), bf["name"]):
                     vals["name_empty"] = t
     return vals
 
@@ -234,14 +256,8 @@ def bu3_pass_through(ctx, rep):
     A = ctx.A
     b = A.method("StoreBuilder", "build")
     cb, cbb, cstmt = A.ctor
-    pnames = {}
-    for d in cb.j["debug"]:
-        if d.get("arg") is not None and d.get("place") is not None and not d["place"]["p"]:
-            pnames[d["place"]["l"]] = d["name"]
-    if not pnames:
-        for l in range(1, cb.arg_count + 1):
-            if l in cb.names:
-                pnames[l] = cb.names[l]
+    pnames = _param_roles(ctx, cb)
+    bf = A.builder_fields()
     pe = ctx.paths(b)
     n = 0
     for p in pe.paths:
@@ -249,14 +265,15 @@ def bu3_pass_through(ctx, rep):
             for i, a in enumerate(e.args):
                 want = pnames.get(i + 1)
                 n += 1
-                rep.check(want is not None and a == ("field", ("param", 1), want), R, "build-passes-%s" % (want or i), ctx.where(b, e.bb), "constructor argument `%s` := builder.%s" % (want, want), "constructor argument `%s` := %s" % (want, term_str(a)))
+                rep.check(want is not None and a == ("field", ("param", 1), bf.get(want)), R, "build-passes-%s" % (want or i), ctx.where(b, e.bb), "constructor argument `%s` := builder.%s" % (want, bf.get(want)), "constructor argument `%s` := %s" % (want, term_str(a)))
     rep.floor(R, "constructor arguments checked", n, 6)
     # inside the constructor: parameters reach their destinations
     bp = ctx.prog.bp(cb)
     si = cb.blocks[cbb]["stmts"].index(cstmt)
     inv = {v: k for k, v in pnames.items()}
     vals = {f: bp.operand_term(o, cbb, si) for f, o in zip(cstmt["rv"]["fields"], cstmt["rv"]["ops"])}
-    for f, pn in ((A.f_state, "state"), (A.f_reducers, "reducers"), (A.f_middlewares, "middlewares"), ("name", "name")):
+    name_field = [f["name"] for f in A.fields(A.store) if f["ty"] == "std::string::String"]
+    for f, pn in ((A.f_state, "state"), (A.f_reducers, "reducers"), (A.f_middlewares, "middlewares"), (name_field[0] if len(name_field) == 1 else "name", "name")):
         if pn in inv and f in vals:
             rep.check(strip_clone(strip_wrap(vals[f])) == ("param", inv[pn]), R, "constructor-uses-%s" % pn, ctx.where(cb, cbb, si), "store.%s := %s" % (f, term_str(vals[f])), "store.%s := %s, not the `%s` parameter" % (f, term_str(vals[f]), pn))
     # channel: capacity and policy
@@ -288,7 +305,8 @@ def bu4_constructors(ctx, rep):
             if not (rt[0] == "agg" and rt[1].endswith("StoreBuilder") and len(rt) > 3):
                 rep.bad(R, "shape:%s" % name, ctx.where(b), "%s returns %s" % (name, term_str(rt)))
                 continue
-            vals = dict(zip(rt[3], rt[2]))
+            inv, _bf = _roles(ctx)
+            vals = {inv.get(f, f): v for f, v in zip(rt[3], rt[2])}
             calls = {e.result: e for e in p.calls()}
             def kind(v):
                 v0 = strip_wrap(v)
